@@ -193,6 +193,18 @@ func NewSymAcct(name, pass string, unlocked bool) *Acct {
 	return a
 }
 
+// SymAcctFromSeed makes a symbolic-key account whose key depends only on the seed (stable across processes).
+func SymAcctFromSeed(name string, seed string, pass string, unlocked bool) *Acct {
+	var p SymPub
+	h := sha256.Sum256([]byte("seed0:" + seed))
+	copy(p[:32], h[:])
+	h = sha256.Sum256([]byte("seed1:" + seed))
+	copy(p[32:], h[:16])
+	a := &Acct{id: uuid.New(), name: name, pub: p, pass: pass}
+	a.unlocked.Store(unlocked)
+	return a
+}
+
 // IsSym reports whether the account has a symbolic key.
 func (a *Acct) IsSym() bool { return a.priv == nil }
 
